@@ -1,0 +1,54 @@
+// Copyright 2026 Blink Labs Software
+//
+// Licensed under the Apache License, Version 2.0 (the "License");
+// you may not use this file except in compliance with the License.
+// You may obtain a copy of the License at
+//
+//     http://www.apache.org/licenses/LICENSE-2.0
+//
+// Unless required by applicable law or agreed to in writing, software
+// distributed under the License is distributed on an "AS IS" BASIS,
+// WITHOUT WARRANTIES OR CONDITIONS OF ANY KIND, either express or implied.
+// See the License for the specific language governing permissions and
+// limitations under the License.
+
+//go:build verif
+
+package vrf
+
+import "filippo.io/edwards25519"
+
+// Verification hooks (build tag `verif` only). They observe Prove and
+// verify, they never change what they compute.
+
+const verifEnabled = true
+
+// VerifTrace, when set, receives the intermediate values of one Prove call
+// (stage "prove": Y, H, Gamma, k, U, V, c, s) and of one core verify call
+// (stage "verify": Y, H, Gamma, U, V, c (from the proof), c' (recomputed), s).
+// Points are their 32-byte encodings, scalars their 32-byte little-endian
+// encodings (c: the 16 challenge bytes zero-extended).
+var VerifTrace func(stage string, vals [][]byte)
+
+func verifTrace(stage string, vals ...[]byte) {
+	if f := VerifTrace; f != nil {
+		cp := make([][]byte, len(vals))
+		for i, v := range vals {
+			cp[i] = append([]byte{}, v...)
+		}
+		f(stage, cp)
+	}
+}
+
+// VerifHashToCurve exposes hashToCurveElligator2(Y, alpha) for a public key encoding.
+func VerifHashToCurve(publicKey []byte, alpha []byte) ([]byte, error) {
+	Y := &edwards25519.Point{}
+	if _, err := Y.SetBytes(publicKey); err != nil {
+		return nil, err
+	}
+	H, err := hashToCurveElligator2(Y, alpha)
+	if err != nil {
+		return nil, err
+	}
+	return H.Bytes(), nil
+}
